@@ -29,6 +29,7 @@ import (
 	"strconv"
 	"strings"
 	"sync"
+	"sync/atomic"
 	"time"
 
 	"verif/internal/pdfdoc"
@@ -1512,6 +1513,14 @@ func c02Replay(in, out string) error {
 						rest = append(rest, i)
 					}
 				}
+				if cur >= 0 && done[cur] == nil && killed {
+					// a stalled child may have been starved by the rest of the machine: the case runs once more on its own,
+					// with three times the deadline between two signs of life, before it is reported as a hang
+					if r := runAlone(self, scratch, s, cur, cases[cur], 3*deadline); r != nil {
+						done[cur] = r
+						slowUnderLoad.Add(1)
+					}
+				}
 				if cur >= 0 && done[cur] == nil {
 					oc := "abort"
 					if killed {
@@ -1537,7 +1546,57 @@ func c02Replay(in, out string) error {
 		}(s)
 	}
 	wg.Wait()
+	if n := slowUnderLoad.Load(); n > 0 {
+		fmt.Fprintf(os.Stderr, "c02: %d case(s) stalled while the machine was busy and returned when run alone\n", n)
+	}
 	return writeResults(out, results)
+}
+
+var slowUnderLoad atomic.Int64
+
+// runAlone runs one case in a worker process of its own; nil if that process dies or shows no sign of life for `limit`.
+func runAlone(self, scratch string, shard, idx int, raw []byte, limit time.Duration) *caseResult {
+	fin := filepath.Join(scratch, fmt.Sprintf("c02-alone-%d-%d.ndjson", os.Getpid(), shard))
+	if err := os.WriteFile(fin, []byte(fmt.Sprintf("{\"idx\":%d,\"case\":%s}\n", idx, raw)), 0o644); err != nil {
+		return nil
+	}
+	defer os.Remove(fin)
+	cmd := exec.Command("bash", "-c", "ulimit -v 6291456; exec \"$0\" c02 worker \"$1\" /dev/null", self, fin)
+	cmd.Env = append(os.Environ(), "GOMEMLIMIT=3GiB", "GOMAXPROCS=2")
+	stdout, _ := cmd.StdoutPipe()
+	if err := cmd.Start(); err != nil {
+		return nil
+	}
+	lines := make(chan string, 64)
+	go func() {
+		sc := bufio.NewScanner(stdout)
+		sc.Buffer(make([]byte, 1<<20), 1<<26)
+		for sc.Scan() {
+			lines <- sc.Text()
+		}
+		close(lines)
+	}()
+	var res *caseResult
+loop:
+	for {
+		select {
+		case l, ok := <-lines:
+			if !ok {
+				break loop
+			}
+			if strings.HasPrefix(l, "R ") {
+				var r caseResult
+				if json.Unmarshal([]byte(l[2:]), &r) == nil && r.Idx == idx {
+					res = &r
+				}
+			}
+		case <-time.After(limit):
+			cmd.Process.Kill()
+			break loop
+		}
+	}
+	cmd.Wait()
+	return res
 }
 
 func c02Judge(i int, raw []byte, r *caseResult) Result {
